@@ -151,7 +151,8 @@ TEXT = {
             "Other direction (PartialErrors.v, premise Hinj): where the complete tree answers, every view operation and the "
             "serialisation on the partial tree give the related answer or a navigation error (index error where the code "
             "re-labels it) — C17_view_ops_two_way; a store command that succeeds on the complete store fails on the partial "
-            "store only with such an error (C17_store_errors). Error class of iterators / export and iterators stepped on "
+            "store only with such an error (C17_store_errors); the same for the three iterators and the object export "
+            "(C17_iterators_complete, C17_export_complete, C17_export_total). Iterator objects stepped on "
             "after a failure: correspondence + model-free comparison of every read path with the complete tree.",
             "Coq proof (simulation relation summ, induction on paths) + correspondence", "5 (C17)"),
     "C18": ("Theorems: get_target_history (model of the fixed code, recursion on the gindex path with per-level "
